@@ -1457,7 +1457,7 @@ SoPlexBase<R>& SoPlexBase<R>::operator=(const SoPlexBase<R>& rhs)
       _ratiotesterHarris = rhs._ratiotesterHarris;
       _ratiotesterFast = rhs._ratiotesterFast;
       _ratiotesterBoundFlipping = rhs._ratiotesterBoundFlipping;
-      _tolerances = rhs._tolerances;
+      _tolerances = std::make_shared<Tolerances>(*rhs._tolerances);
 
       // copy solution data
       _status = rhs._status;
